@@ -69,6 +69,15 @@ CHECKS = {
             "Holstein / spin-boson / translation-invariant builders (all schemes, periodic wrap-around).",
             "documented truncation at the highest level; N <= 12, powers <= 6; quadrature tolerance 1e-8",
             "DESIGN.md section 3 / C16"),
+    "C18": ("exploration",
+            "icontract pre/postconditions on expm_krylov, svd_qn, eigh_qn bound on every call site (also active in situ "
+            "under canonicalise/compress/TDVP/DMRG workloads), dense expm / SVD references, sys.monitoring line events "
+            "proving which Krylov exit branch ran",
+            "Direct hostile workloads (structured spectra, invariant subspaces, all dt phases, block sizes; arbitrary "
+            "label patterns incl. empty and one-sided sectors, both systems, full/economic, SVD/QR) plus in-situ call "
+            "sites; all four Krylov exit branches are required to be observed.",
+            "Krylov judged for linear Hermitian maps with ||A|||dt| <= 20; tolerance 10x the kernel's own allclose",
+            "DESIGN.md section 3 / C18"),
     "C20": ("exploration",
             "icontract postcondition on bipartite_vertex_cover at every call site + hook on _decompose_graph + "
             "small-scope exhaustive enumeration of graphs, against the harness's own maximum matching / brute force",
